@@ -22,7 +22,8 @@ func init() {
 			"NOT decided: the operating system's rename atomicity and crash behaviour (no fsync is required by the rule); whether messages are well worded." +
 			" R7 also: runner state is write-only while files are processed; R5 also: no deferred overwrite of Run's error." +
 			" R11 an unprocessable patch is reported (connectDots covers every '+' elision)." +
-			" R5 also: the patch runner is never copied by value (no value receiver, no struct load).",
+			" R5 also: the patch runner is never copied by value (no value receiver, no struct load)." +
+			" R12 the reader under io.ReadAll does not end early by construction; R13 behind the library's change loop no nil-error return is reachable without the nothing-collected edge of the accumulator test; R14 = C12-R9; R5 accepts a non-zero status with a nil Run error only behind another failed step.",
 		Trusted:     commonTrusted,
 		Assumptions: append([]string{"os.Rename within one directory replaces the destination atomically (POSIX)", "errors returned by package os for a path (*PathError, *LinkError) name that path"}, commonAssumptions...),
 	})
@@ -53,6 +54,9 @@ func runC16(r *an.Run) {
 	// (connectDots looks at every '+' elision before it reports success, and compileChange records its error)
 	c04AssociationReported(r)
 	relabel(r, "R7-association-errors-reported", "R11-an-unprocessable-patch-is-reported")
+	patchIsReadWhole(r, "R12-a-patch-is-read-whole")
+	failuresLookedAtBeforeSuccess(r, "R13-collected-failures-are-looked-at-before-success")
+	bufferedOutputIsFlushed(r, "R14-buffered-output-is-flushed-on-every-exit")
 }
 
 var destructiveOpens = setOf("os.WriteFile", "os.Create", "os.OpenFile", "os.Truncate", "io/ioutil.WriteFile", "(*os.File).Truncate")
@@ -646,7 +650,7 @@ func c16ExitStatus(r *an.Run, m *runModel) {
 		return
 	}
 	// path-sensitive: on every path, the status returned is 0 iff Run's error is nil, and the error is printed when it is not
-	paths, err := an.EnumeratePathsFrom(rm.Blocks[0], func(c ssa.Value) string {
+	paths, err := an.EnumeratePathsFrom(runCall.Block(), func(c ssa.Value) string {
 		cmp, ok := c.(*ssa.BinOp)
 		if !ok || (cmp.Op != token.EQL && cmp.Op != token.NEQ) {
 			return ""
@@ -666,12 +670,25 @@ func c16ExitStatus(r *an.Run, m *runModel) {
 			isNil, known = !v, true
 		}
 		ret, isRet := p.End.Instrs[len(p.End.Instrs)-1].(*ssa.Return)
-		if !known || !isRet {
+		if !isRet {
 			okStatus = false
 			continue
 		}
+		if !known {
+			// a way out on which Run's error is not looked at: only with a non-zero status, because something
+			// else failed (the buffered output could not be flushed)
+			if k, isc := an.ConstInt(p.ResolveOnPath(ret.Results[0])); !isc || k == 0 || !pathTakesAnErrorEdge(p, runCall) {
+				okStatus = false
+			}
+			continue
+		}
 		k, isc := an.ConstInt(p.ResolveOnPath(ret.Results[0]))
-		if !isc || (k == 0) != isNil {
+		if !isc || (k == 0) && !isNil {
+			okStatus = false
+		}
+		if isc && k != 0 && isNil && !pathTakesAnErrorEdge(p, runCall) {
+			// Run succeeded and the status is non-zero: only because something else failed afterwards
+			// (the buffered output could not be flushed)
 			okStatus = false
 		}
 		if !isNil {
@@ -688,7 +705,7 @@ func c16ExitStatus(r *an.Run, m *runModel) {
 			}
 		}
 	}
-	r.Check(okStatus, short(rm)+"|status", rm.Pos(), "runMain returns a non-zero status exactly when Run returned an error (%d paths)", len(paths))
+	r.Check(okStatus, short(rm)+"|status", rm.Pos(), "runMain returns a non-zero status when Run returned an error, and zero otherwise unless something else failed after Run (%d paths)", len(paths))
 	r.Check(printed, short(rm)+"|stderr", rm.Pos(), "runMain prints the error to cmd.Stderr")
 	mainFn := fn(r, mainP, "main")
 	if mainFn != nil {
@@ -983,4 +1000,39 @@ func runnerNeverCopied(r *an.Run, rule string) {
 	if len(r.Failing()) == 0 {
 		r.Pass("runner-never-copied", 0, "%d values of the patch runner type in package main: all are pointers to the one runner (no value receiver, no struct copy)", n)
 	}
+}
+
+// pathTakesAnErrorEdge: somewhere on the path a branch on `x != nil` for an
+// error x other than not is taken on its non-nil side.
+func pathTakesAnErrorEdge(p an.DPath, not ssa.Value) bool {
+	for i, b := range p.Blocks {
+		if i+1 >= len(p.Blocks) {
+			break
+		}
+		iff, ok := b.Instrs[len(b.Instrs)-1].(*ssa.If)
+		if !ok {
+			continue
+		}
+		cmp, ok := iff.Cond.(*ssa.BinOp)
+		if !ok || (cmp.Op != token.EQL && cmp.Op != token.NEQ) {
+			continue
+		}
+		x := cmp.X
+		if an.IsNilConst(x) {
+			x = cmp.Y
+		} else if !an.IsNilConst(cmp.Y) {
+			continue
+		}
+		if x == not || !an.IsErrorType(x.Type()) {
+			continue
+		}
+		nonNilSucc := 0
+		if cmp.Op == token.EQL {
+			nonNilSucc = 1
+		}
+		if b.Succs[nonNilSucc] == p.Blocks[i+1] {
+			return true
+		}
+	}
+	return false
 }
